@@ -11,7 +11,7 @@ use crate::refsyn::{self, Cmp};
 use crate::report::{Ctx, Spec, Stats};
 use crate::tt::Tt;
 use crate::util::{self, guarded, mix, Rng};
-use rsbdd::bdd::BDDEnv;
+use rsbdd::bdd::{BDDEnv, BDD};
 use rsbdd::parser::ParsedFormula;
 use serde_json::{json, Value};
 use std::io::BufReader;
@@ -354,6 +354,116 @@ fn long_list_job(ctx: &Ctx, len: usize, reps: usize) -> Stats {
     st
 }
 
+/// DEEP lists: 18-25 DISTINCT plain variables (some negated) as operands, so that the diagrams of
+/// the counting ladder are 18-25 levels deep, with bounds around the middle, at the ends, and a
+/// list-vs-list comparison of two disjoint halves. Judged pointwise on the all-false / all-true
+/// assignments, on assignments with exactly bound-1, bound, bound+1 true operands and on random ones.
+fn deep_list_job(ctx: &Ctx, len: usize) -> Stats {
+    let mut st = Stats::new();
+    let mut rng = Rng::stream(ctx.seed, "C05.deep", len as u64);
+    let env: BDDEnv<usize> = BDDEnv::new();
+    let negated: Vec<bool> = (0..len).map(|_| rng.chance(1, 5)).collect();
+    let ops: Vec<D> = (0..len).map(|i| if negated[i] { env.not(env.var(3 * i + 1)) } else { env.var(3 * i + 1) }).collect();
+    let eval = |d: &D, asg: &[bool]| -> bool {
+        let mut cur = Rc::clone(d);
+        loop {
+            let next = match cur.as_ref() {
+                BDD::True => return true,
+                BDD::False => return false,
+                BDD::Choice(t, l, e) => if asg[(*l - 1) / 3] { Rc::clone(t) } else { Rc::clone(e) },
+            };
+            cur = next;
+        }
+    };
+    // assignments: value of variable i; operand i is true when asg[i] != negated[i]
+    let with_true_ops = |rng: &mut Rng, k: usize| -> Vec<bool> {
+        let mut idx: Vec<usize> = (0..len).collect();
+        rng.shuffle(&mut idx);
+        let mut a: Vec<bool> = negated.clone(); // every operand false
+        for i in idx.into_iter().take(k.min(len)) {
+            a[i] = !a[i];
+        }
+        a
+    };
+    let l = len as i64;
+    // (the cost of a count doubles per operand: beyond 20 operands only the middle bounds are tried)
+    let bounds: Vec<i64> = if len <= 20 { vec![l / 2 - 1, l / 2, l / 2 + 1, 1, l - 1, 0, l] } else { vec![l / 2, l / 2 + 1] };
+    util::budget(u64::MAX, 1000);
+    for (name, cmp) in [("aln", Cmp::AtLeast), ("amn", Cmp::AtMost), ("exn", Cmp::Exactly)] {
+        for b in bounds.iter().copied() {
+            st.evals += 1;
+            let case = json!({"kind": "deep", "len": len, "seed": ctx.seed});
+            let r = match guarded(|| match name { "aln" => env.aln(&ops, b), "amn" => env.amn(&ops, b), _ => env.exn(&ops, b) }) {
+                Ok(r) => r,
+                Err(c) => {
+                    st.violate("c05.panic", format!("C05:{}:{}", name, c.signature()), format!("{} over {} distinct variables, bound {}: {:?}", name, len, b, c), case);
+                    continue;
+                }
+            };
+            let mut samples: Vec<Vec<bool>> = vec![with_true_ops(&mut rng, 0), with_true_ops(&mut rng, len)];
+            for k in [b - 1, b, b + 1] {
+                if k >= 0 && k <= l {
+                    for _ in 0..40 {
+                        samples.push(with_true_ops(&mut rng, k as usize));
+                    }
+                }
+            }
+            for _ in 0..300 {
+                let k = rng.usize(len + 1);
+                samples.push(with_true_ops(&mut rng, k));
+            }
+            let mut bad = None;
+            for a in &samples {
+                let count = (0..len).filter(|i| a[*i] != negated[*i]).count() as i128;
+                if eval(&r, a) != crate::refsem::cmp_holds(cmp, count, b as i128) {
+                    bad = Some((count, eval(&r, a)));
+                    break;
+                }
+            }
+            match bad {
+                Some((count, got)) => st.violate("c05.count", format!("C05:{}:wrong-value", name), format!("{}(ops, {}) over {} distinct variables ({} of them negated): under an assignment with {} true operands the result says {}", name, b, len, negated.iter().filter(|x| **x).count(), count, got), case),
+                None => {
+                    st.bump("deep_list_cases");
+                    st.max("max_distinct_variables_in_a_list", len as u64);
+                    st.nt.insert(mix(0xdee9, (len as u64) << 16 ^ (b as u64) << 2 ^ name.len() as u64));
+                }
+            }
+        }
+    }
+    // two disjoint halves against each other
+    if len > 20 {
+        return st;
+    }
+    let (left, right) = ops.split_at(len / 2);
+    for (name, cmp) in [("leq", Cmp::AtMost), ("lt", Cmp::LessThan), ("geq", Cmp::AtLeast), ("gt", Cmp::MoreThan), ("eq", Cmp::Exactly)] {
+        st.evals += 1;
+        let case = json!({"kind": "deep", "len": len, "seed": ctx.seed});
+        let r = match guarded(|| match name { "leq" => env.count_leq(left, right), "lt" => env.count_lt(left, right), "geq" => env.count_geq(left, right), "gt" => env.count_gt(left, right), _ => env.count_eq(left, right) }) {
+            Ok(r) => r,
+            Err(util::Caught::Budget(_)) => continue,
+            Err(c) => {
+                st.violate("c05.panic", format!("C05:count_{}:{}", name, c.signature()), format!("{:?}", c), case);
+                continue;
+            }
+        };
+        let mut bad = None;
+        for s in 0..600 {
+            let k = if s < 200 { len / 2 } else { rng.usize(len + 1) };
+            let a = with_true_ops(&mut rng, k);
+            let (cl, cr) = ((0..len / 2).filter(|i| a[*i] != negated[*i]).count() as i128, (len / 2..len).filter(|i| a[*i] != negated[*i]).count() as i128);
+            if eval(&r, &a) != crate::refsem::cmp_holds(cmp, cl, cr) {
+                bad = Some((cl, cr, eval(&r, &a)));
+                break;
+            }
+        }
+        match bad {
+            Some((cl, cr, got)) => st.violate("c05.count", format!("C05:count_{}:wrong-value", name), format!("count_{} of two disjoint lists of {} and {} distinct variables: with {} vs {} true operands the result says {}", name, len / 2, len - len / 2, cl, cr, got), case),
+            None => st.bump("deep_list_cases"),
+        }
+    }
+    st
+}
+
 const OPERAND_TEXTS: [&str; 14] = ["a", "b", "-a", "a & b", "a | b", "a ^ b", "true", "false", "c", "a => c", "-(b | c)", "a <=> b", "exists c # c & a", "[a, b] = 1"];
 
 fn language_job(ctx: &Ctx, job: usize, iters: u64) -> Stats {
@@ -489,6 +599,9 @@ pub fn run(ctx: &Ctx) -> (Stats, Spec) {
     let lens: Vec<usize> = ctx.tier.pick(vec![8, 11, 13, 15, 16, 17, 18], vec![8, 9, 10, 11, 12, 13, 14, 15, 16, 17, 18, 19, 20, 21]);
     let reps = ctx.tier.pick(1usize, 4usize);
     let parts = util::par_jobs(lens.len(), |j| long_list_job(ctx, lens[j], if lens[j] < 16 { 2 * reps } else { reps }));
+    st.merge(crate::report::merge_all(parts));
+    let deep: Vec<usize> = ctx.tier.pick(vec![18, 20, 22, 23], vec![18, 19, 20, 21, 22, 23, 24]);
+    let parts = util::par_jobs(deep.len(), |j| deep_list_job(ctx, deep[j]));
     st.merge(crate::report::merge_all(parts));
     // the language: a long list of plain variables against boundary constants
     for n in ctx.tier.pick(vec![16usize, 17, 18], vec![12, 16, 17, 18, 19, 20]) {
